@@ -1,5 +1,6 @@
-import SFV.Proofs.Decomp
+import SFV.Proofs.DecompMore
 import Mathlib.Algebra.Group.End
+import Mathlib.Tactic.FinCases
 
 /-!
 # C17 — matrix decompositions return exact, correctly structured factors
@@ -96,34 +97,91 @@ theorem zero_pattern_run (U U' : CMat K) (l : List Step) (h : Follows U l U') :
     Describes (runPat noZeros l) U' :=
   follows_describes h noZeros (describes_noZeros U)
 
-/-! ## (3) the schedules, for every size
+/-! ## (3) the schedules, for every size — full strength
 
-Full statement (DESIGN §4): after the source's loop order every *off-diagonal* entry is zero.  What is proved,
-for every `n`: every entry *below* the diagonal is zero (Boolean pattern, and for every run of actual matrices
-that follows the schedule).  Missing for the full statement: "an upper triangular unitary matrix is diagonal"
-(needs the unitarity of the input, which the Boolean abstraction does not carry); the real code relies on it
-when it returns `np.diag(localV)`, and the oracle checks the reconstruction from that diagonal on every call. -/
+A run `UFollows n U sched U'` multiplies, step by step in the order of the source's loops, by *unitary* 2×2
+blocks on the scheduled mode pair from the scheduled side (and by unit phases, for the compact meshes), each
+nulling its scheduled entry.  If the input passes the code's own test `V V† = 1`, the final matrix is diagonal
+with unit-modulus entries — what the code returns as `np.diag(localV)`.  Scalars: any ordered commutative ring
+(ℚ, ℝ); the zero lower triangle needs neither order nor unitarity (`schedule_lower`). -/
 
-/-- `triangular` (Reck), any size: after the loop order of the source, all entries below the diagonal are zero. -/
-theorem schedule_triangular_partial (n : Nat) (U U' : CMat K) (h : Follows U (triSchedule n) U') :
-    ∀ i k, k < i → i < n → U' i k = 0 := by
-  intro i k hk hi
-  have hp := reckFrom_inv n (n - 1) 0 noZeros (by omega) (by intro i k _ hk; omega)
-  exact zero_pattern_run U U' _ h i k (hp i k hi (by omega) hk)
+section full
+set_option linter.unusedSectionVars false
+variable {K : Type} [CommRing K] [LinearOrder K] [IsStrictOrderedRing K]
 
-/-- `rectangular` / `rectangular_MZ` / `rectangular_compact` (Clements), any size. -/
-theorem schedule_rectangular_partial (n : Nat) (U U' : CMat K) (h : Follows U (rectSchedule n) U') :
-    ∀ i k, k < i → i < n → U' i k = 0 := by
-  intro i k hk hi
-  have hp := clementsFrom_inv n (n - 1) 0 noZeros (by omega) (low_noZeros n)
-  exact zero_pattern_run U U' _ h i k (hp i k hi (by omega))
+/-- `triangular` (Reck), any size. -/
+theorem schedule_triangular (n : Nat) (U U' : CMat K) (hu : toM n U * (toM n U).conjTranspose = 1)
+    (h : UFollows n U (triSchedule n) U') :
+    (∀ i k, i < n → k < n → i ≠ k → U' i k = 0) ∧ (∀ i, i < n → normSq (U' i i) = 1) := by
+  have hu' := (h.isU (isU_of_mul_conjTranspose _ hu)).1
+  have hlow : ∀ i k, k < i → i < n → U' i k = 0 := fun i k hk hi =>
+    follows_describes h.follows noZeros (describes_noZeros U) i k
+      (reckFrom_inv n (n - 1) 0 noZeros (by omega) (by intro i k _ hk; omega) i k hi (by omega) hk)
+  exact ⟨diagonal_of_lower_unitary U' hu' hlow, diag_normSq_of_lower_unitary U' hu' hlow⟩
+
+/-- `rectangular`, `rectangular_MZ` (hence `rectangular_phase_end`, `rectangular_symmetric`) and
+`rectangular_compact` (Clements), any size. -/
+theorem schedule_rectangular (n : Nat) (U U' : CMat K) (hu : toM n U * (toM n U).conjTranspose = 1)
+    (h : UFollows n U (rectSchedule n) U') :
+    (∀ i k, i < n → k < n → i ≠ k → U' i k = 0) ∧ (∀ i, i < n → normSq (U' i i) = 1) := by
+  have hu' := (h.isU (isU_of_mul_conjTranspose _ hu)).1
+  have hlow : ∀ i k, k < i → i < n → U' i k = 0 := fun i k hk hi =>
+    follows_describes h.follows noZeros (describes_noZeros U) i k
+      (clementsFrom_inv n (n - 1) 0 noZeros (by omega) (low_noZeros n) i k hi (by omega))
+  exact ⟨diagonal_of_lower_unitary U' hu' hlow, diag_normSq_of_lower_unitary U' hu' hlow⟩
 
 /-- `triangular_compact`, any size. -/
-theorem schedule_triangular_compact_partial (n : Nat) (U U' : CMat K)
-    (h : Follows U (triCompactSchedule n) U') : ∀ i k, k < i → i < n → U' i k = 0 := by
-  intro i k hk hi
-  have hp := triCompactFrom_inv n (n - 1) 0 noZeros (by omega) (low_noZeros n)
-  exact zero_pattern_run U U' _ h i k (hp i k hi (by omega))
+theorem schedule_triangular_compact (n : Nat) (U U' : CMat K) (hu : toM n U * (toM n U).conjTranspose = 1)
+    (h : UFollows n U (triCompactSchedule n) U') :
+    (∀ i k, i < n → k < n → i ≠ k → U' i k = 0) ∧ (∀ i, i < n → normSq (U' i i) = 1) := by
+  have hu' := (h.isU (isU_of_mul_conjTranspose _ hu)).1
+  have hlow : ∀ i k, k < i → i < n → U' i k = 0 := fun i k hk hi =>
+    follows_describes h.follows noZeros (describes_noZeros U) i k
+      (triCompactFrom_inv n (n - 1) 0 noZeros (by omega) (low_noZeros n) i k hi (by omega))
+  exact ⟨diagonal_of_lower_unitary U' hu' hlow, diag_normSq_of_lower_unitary U' hu' hlow⟩
+
+/-- the two ingredients on their own: unitarity is carried along any run with unitary blocks and unit phases, and
+a unitary matrix with a zero lower triangle is diagonal (row/column norms, induction on the row index). -/
+theorem run_preserves_unitarity (n : Nat) (U U' : CMat K) (l : List Step) (h : UFollows n U l U')
+    (hu : toM n U * (toM n U).conjTranspose = 1) : toM n U' * (toM n U').conjTranspose = 1 :=
+  (h.isU (isU_of_mul_conjTranspose _ hu)).1
+
+theorem triangular_unitary_diagonal (n : Nat) (U : CMat K) (hu : toM n U * (toM n U).conjTranspose = 1)
+    (hlow : ∀ i k, k < i → i < n → U i k = 0) : ∀ i k, i < n → k < n → i ≠ k → U i k = 0 :=
+  diagonal_of_lower_unitary U hu hlow
+
+end full
+
+/-- the blocks the code uses are unitary (so that runs of the real meshes are `UFollows` runs): `T`, `Ti`,
+`mach_zehnder`, `mach_zehnder_inv`, the sMZI, the staircase rotation of `sun_compact`. -/
+theorem blocks_unitary (c s : K) (e Y Z : Cx K) (hcs : c * c + s * s = 1) (he : e.re * e.re + e.im * e.im = 1)
+    (hn : Y * conj Y + Z * conj Z = 1) :
+    (blkT c s e).IsUnitary ∧ (blkTi c s e).IsUnitary ∧ (blkMZ c s e).IsUnitary ∧ (blkMZi c s e).IsUnitary ∧
+    (blkM c s e).IsUnitary ∧ (⟨conj Y, conj Z, -Z, Y⟩ : Blk K).IsUnitary :=
+  ⟨blkT_isUnitary c s e hcs he, blkTi_isUnitary c s e hcs he, blkMZ_isUnitary c s e hcs he,
+   blkMZi_isUnitary c s e hcs he, blkM_isUnitary c s e hcs he, staircase_block_unitary Y Z hn⟩
+
+/-- zero lower triangle for runs with arbitrary blocks over any commutative ring (no unitarity needed) -/
+theorem schedule_lower (n : Nat) (U U' : CMat K) :
+    (Follows U (triSchedule n) U' → ∀ i k, k < i → i < n → U' i k = 0) ∧
+    (Follows U (rectSchedule n) U' → ∀ i k, k < i → i < n → U' i k = 0) ∧
+    (Follows U (triCompactSchedule n) U' → ∀ i k, k < i → i < n → U' i k = 0) :=
+  ⟨fun h i k hk hi => zero_pattern_run U U' _ h i k
+      (reckFrom_inv n (n - 1) 0 noZeros (by omega) (by intro i k _ hk; omega) i k hi (by omega) hk),
+   fun h i k hk hi => zero_pattern_run U U' _ h i k
+      (clementsFrom_inv n (n - 1) 0 noZeros (by omega) (low_noZeros n) i k hi (by omega)),
+   fun h i k hk hi => zero_pattern_run U U' _ h i k
+      (triCompactFrom_inv n (n - 1) 0 noZeros (by omega) (low_noZeros n) i k hi (by omega))⟩
+
+/-- the pattern the driver evaluates (`dec.pattern`, tabulated after each step) is the proved `runPat` -/
+theorem driver_pattern_is_model (n : Nat) (l : List Step) (hl : ∀ s ∈ l, s.p + 1 < n) (i j : Nat) (hi : i < n)
+    (hj : j < n) : ofTablePat (runPatTab n (tabulatePat n noZeros) l) i j = runPat noZeros l i j :=
+  runPatTab_eq n l _ noZeros hl (fun i j hi hj => ofTablePat_tabulatePat n noZeros i j hi hj) i j hi hj
+
+/-- and the tabulated matrices of `dec.runExact` / `dec.mix` are the model's matrices inside the matrix -/
+theorem driver_table_is_model {K : Type} [Zero K] (n : Nat) (U : CMat K) (i j : Nat) (hi : i < n) (hj : j < n) :
+    ofTable (tabulate n U) i j = U i j :=
+  ofTable_tabulate n U i j hi hj
 
 /-- the Boolean statements themselves (what the driver's `dec.pattern` evaluates) -/
 theorem schedule_patterns (n : Nat) :
@@ -153,6 +211,44 @@ theorem reconstruct_push_phase (c s : K) (a b f : Cx K) (hb : b.re * b.re + b.im
     (blkTi c s f).c * a = b * (blkT c s f').c ∧ (blkTi c s f).d * b = b * (blkT c s f').d :=
   push_phase c s a b f hb
 
+/-- `rectangular_symmetric`: the same for Mach-Zehnder blocks, `MZ⁻¹ diag(a, b) = diag(a', b') MZ'` with
+`e^{iφ_e'} = a conj b`, `a' = −b conj(e) conj(w)`, `b' = −b conj(w)`, `w = e^{iφ_i}`, `φ_i` unchanged. -/
+theorem reconstruct_push_phase_MZ (c s : K) (a b e : Cx K) (hcs : c * c + s * s = 1)
+    (hb : b.re * b.re + b.im * b.im = 1) :
+    let w : Cx K := ⟨c * c - s * s, 2 * c * s⟩
+    let e' : Cx K := a * conj b
+    let a' : Cx K := -(b * conj e * conj w)
+    let b' : Cx K := -(b * conj w)
+    (blkMZi c s e).a * a = a' * (blkMZ c s e').a ∧ (blkMZi c s e).b * b = a' * (blkMZ c s e').b ∧
+    (blkMZi c s e).c * a = b' * (blkMZ c s e').c ∧ (blkMZi c s e).d * b = b' * (blkMZ c s e').d :=
+  push_phase_MZ c s a b e hcs hb
+
+/-- `_absorb_zeta` (`rectangular_compact`): the relocation step `diag(f, 1) M(σ) = diag(1, conj f) M(σ + ζ)`, and,
+for every size, every update goes to a parameter the circuit has: an sMZI position of the rectangular mesh
+(mode and layer of equal parity, inside the mesh), an edge phase that is actually applied
+(`(layer + m + 1) % 2 = 0`), or `phi_outs[0]` for even `m`; the residual phase index exists. -/
+theorem absorb_zeta_structure (c s : K) (e f : Cx K) (hf : f.re * f.re + f.im * f.im = 1) (m : Nat) (hm : 1 ≤ m) :
+    (f * (blkM c s e).a = (blkM c s (e * f)).a ∧ f * (blkM c s e).b = (blkM c s (e * f)).b ∧
+     (blkM c s e).c = conj f * (blkM c s (e * f)).c ∧ (blkM c s e).d = conj f * (blkM c s (e * f)).d) ∧
+    ∀ u ∈ absorbUpdates m, u.Valid m :=
+  ⟨absorb_step c s e f hf, absorbUpdates_valid m hm⟩
+
+/-- `sun_compact`: the general staircase rotation (normalised by the two entries it mixes, as after the fix)
+sends `(y, z)` to `(cf, 0)`; the SU(2) block of the documented parametrisation is `[[u, −conj v], [v, conj u]]`
+with the phases `_su2_parameters` reads off; in the typical SU(3) case `middle† left†` sends the first column to
+`(1, 0, 0)`, so the remainder is `1 ⊕ SU(2)`. -/
+theorem sun_steps (U : CMat K) (i : Nat) (cf c s : K) (x Y Z ea eg : Cx K) (hn : Y * conj Y + Z * conj Z = 1) :
+    (U i 0 = ofReal cf * Y → U (i + 1) 0 = ofReal cf * Z →
+      leftMix ⟨conj Y, conj Z, -Z, Y⟩ i (i + 1) U i 0 = ofReal cf ∧
+      leftMix ⟨conj Y, conj Z, -Z, Y⟩ i (i + 1) U (i + 1) 0 = 0) ∧
+    blkSU2 c s ea eg = ⟨ea * eg * ofReal c, -conj (conj ea * eg * ofReal s), conj ea * eg * ofReal s,
+      conj (ea * eg * ofReal c)⟩ ∧
+    (x * conj x + ofReal (cf * cf) = 1 →
+      conj Y * (ofReal cf * Y) + conj Z * (ofReal cf * Z) = ofReal cf ∧ -Z * (ofReal cf * Y) + Y * (ofReal cf * Z) = 0 ∧
+      conj x * x + ofReal cf * ofReal cf = 1 ∧ -(ofReal cf) * x + x * ofReal cf = 0) :=
+  ⟨fun hy hz => staircase_step U i cf Y Z hn hy hz, su2_parameters_block c s ea eg,
+   fun hx => su3_first_column x Y Z cf hn hx⟩
+
 /-! ## (5) structure lemmas: `williamson`, `bloch_messiah`, `takagi` -/
 
 /-- `williamson`: given `M = V^{-1/2}` symmetric, `K` orthogonal, `R = √Db` symmetric, the returned
@@ -172,10 +268,10 @@ theorem bloch_messiah_structure {G : Type} [Monoid G] (W Wt Q Qt D u : G)
     (W * Q) * (Qt * D * Q) * ((Qt * Wt) * u) = (W * D * Wt) * u ∧ (Qt * Wt) * (W * Q) = 1 :=
   ⟨bloch_messiah_factors W Wt Q Qt D u hQ, bloch_messiah_orthogonal W Wt Q Qt hW hQ'⟩
 
-/-- Full statement for `bloch_messiah`: the outer factors are also *symplectic*.  Proved under the hypothesis
-the proof forces — the basis change `Q` built from the per-group SVDs preserves the restricted form — which
-fails for the group of unit singular values (see the counterexample below; known finding). -/
-theorem bloch_messiah_symplectic_partial {G : Type} [Monoid G] (W Wt Q Qt Ω Ω' : G)
+/-- `bloch_messiah`: the outer factors are *symplectic* when the basis change `Q` brings the restricted form
+into canonical shape.  For `s ≠ 1` that is what the per-group SVD achieves; for the unit subspace the code (after
+the fix) builds a symplectic basis of the whole subspace; the hypothesis is certificate-checked on every call. -/
+theorem bloch_messiah_symplectic {G : Type} [Monoid G] (W Wt Q Qt Ω Ω' : G)
     (hW : Wt * Ω * W = Ω') (hQ : Qt * Ω' * Q = Ω) : (Qt * Wt) * Ω * (W * Q) = Ω := by
   calc (Qt * Wt) * Ω * (W * Q) = Qt * (Wt * Ω * W) * Q := by simp [mul_assoc]
     _ = Ω := by rw [hW, hQ]
@@ -185,16 +281,24 @@ def cexΩ : Nat → Nat → Int := fun a b => if a + 2 = b then 1 else if b + 2 
 def cexB : Nat → Nat → Int := fun a i =>
   if (a, i) = (0, 0) ∨ (a, i) = (2, 1) ∨ (a, i) = (1, 2) ∨ (a, i) = (3, 3) then 1 else 0
 
-/-- known finding: for two unsqueezed modes an orthonormal eigenbasis of the unit-singular-value subspace may
-come in the order `(x₁, p₁, x₂, p₂)`; the block of the restricted form between its first and second half — the
-matrix whose SVD `bloch_messiah` uses to build `Q` — is then zero, not orthogonal (while the form itself is
-non-degenerate on that basis), so no `Q` of the assumed block shape satisfies the hypothesis of
-`bloch_messiah_symplectic_partial`. -/
-theorem bloch_messiah_unit_block_counterexample :
+/-- why the unit subspace needs its own construction (the defect repaired in `bloch_messiah`): for two
+unsqueezed modes an orthonormal eigenbasis may come in the order `(x₁, p₁, x₂, p₂)`; the block of the restricted
+form between its first and second half — whose SVD is used for the groups with `s ≠ 1` — is then zero, not
+orthogonal, while the form itself is non-degenerate on that basis. -/
+theorem bloch_messiah_unit_block_degenerate :
     restrictForm 4 cexΩ cexB 0 2 = 0 ∧ restrictForm 4 cexΩ cexB 0 3 = 0 ∧
     restrictForm 4 cexΩ cexB 1 2 = 0 ∧ restrictForm 4 cexΩ cexB 1 3 = 0 ∧
     restrictForm 4 cexΩ cexB 0 1 = 1 ∧ restrictForm 4 cexΩ cexB 2 3 = 1 := by
   decide
+
+/-- `bloch_messiah`: the reordering `perm = range(n) + reversed(range(n, 2n))` is an involution of the indices (the
+code relies on `pmat` being symmetric), and it turns decreasingly sorted singular values, which come in pairs
+`ss(2n-1-i) = 1/ss(i)`, into `(s₁ … s_n, 1/s₁ … 1/s_n)`. -/
+theorem bloch_messiah_permutation {α : Type} (n : Nat) (ss : Nat → α) (inv : α → α)
+    (hpair : ∀ i, i < n → ss (2 * n - 1 - i) = inv (ss i)) :
+    (∀ i, i < 2 * n → bmPerm n (bmPerm n i) = i ∧ bmPerm n i < 2 * n) ∧
+    (∀ i, i < n → ss (bmPerm n i) = ss i ∧ ss (bmPerm n (n + i)) = inv (ss i)) :=
+  ⟨fun i hi => bmPerm_involutive n i hi, fun i hi => bmPerm_pairs n ss inv hpair i hi⟩
 
 /-- `takagi`, real branch: `phase² ⋅ |λ| = λ` for both signs and for zero, hence
 `(U diag(phases)) diag(|λ|) (U diag(phases))ᵀ = U diag(λ) Uᵀ`. -/
@@ -202,16 +306,21 @@ theorem takagi_real_structure {K : Type} [CommRing K] [LT K] [DecidableRel (fun 
     (if 0 < l then (1 : K) else -1) * (if 0 < l then l else -l) = l :=
   takagi_real_entry l
 
-/-- `takagi`, complex branch groups singular values by `np.round(·, rounding)`.  What holds: values in one
-group are closer than one unit of the rounding precision. -/
-theorem takagi_grouping_partial (a b : Int) (h : roundKey a = roundKey b) : a - b < 100 ∧ b - a < 100 :=
-  roundKey_close a b h
+/-- `takagi`, real branch: the returned values are a rearrangement of `|λ_i|` (every position once, with its own
+value), non-negative and in decreasing order — for every list of eigenvalues. -/
+theorem takagi_real_order (l : List Int) :
+    (takagiOrder l).Perm ((l.map fun x => (x.natAbs : Int)).zipIdx) ∧
+    (∀ p ∈ takagiOrder l, 0 ≤ p.1 ∧ ∃ x, l[p.2]? = some x ∧ p.1 = (x.natAbs : Int)) ∧
+    (takagiOrder l).Pairwise fun a b => b.1 ≤ a.1 :=
+  ⟨takagiOrder_perm l, fun p hp => ⟨takagiOrder_nonneg l p hp, takagiOrder_index l p hp⟩, takagiOrder_sorted l⟩
 
-/-- known finding: the converse fails — two singular values that differ by 2 % of the rounding unit can fall
-into different groups (…49 and …51), although the SVD cannot separate their singular vectors; the degenerate-subspace
-correction is then skipped and the returned `U` is not unitary. -/
-theorem takagi_grouping_counterexample : ¬ ∀ a b : Int, a - b < 3 → b - a < 3 → roundKey a = roundKey b := by
-  intro h; exact absurd (h 100000000000049 100000000000051 (by decide) (by decide)) (by decide)
+/-- `takagi`, complex branch (after the fix: one square root for the whole matrix, no grouping of singular
+values): with the SVD written as `N = v d conj(q) vᵀ`, any square root `r` of `conj q` that is symmetric and
+commutes with `d` gives `U = v r` with `U d Uᵀ = N`. -/
+theorem takagi_complex_structure {G : Type} [Monoid G] (v vt d cq r rt : G)
+    (hsq : r * r = cq) (hsym : rt = r) (hcomm : r * d = d * r) :
+    (v * r) * d * (rt * vt) = v * d * cq * vt :=
+  takagi_complex_factors v vt d cq r rt hsq hsym hcomm
 
 /-! ## non-vacuity -/
 
@@ -262,8 +371,26 @@ example : Follows (fun i j => if i + j = 1 then (1 : Cx Int) else 0) (rectSchedu
 example : runElim (Equiv.swap (0 : Fin 3) 1) [.inl (Equiv.swap 1 2), .inr (Equiv.swap 0 2)]
     = Equiv.swap 1 2 * Equiv.swap (0 : Fin 3) 1 * Equiv.swap 0 2 := rfl
 
-/-- the rounding key separates …49 from …51 and identifies …51 with …149 -/
-example : roundKey 100000000000049 ≠ roundKey 100000000000051 ∧
-    roundKey 100000000000051 = roundKey 100000000000149 := by decide
+/-- a unitary run over ℤ: the 2×2 exchange matrix, swap branch of `nullTi`; the input passes `V V† = 1` -/
+example : UFollows 2 (fun i j => if i + j = 1 then (1 : Cx Int) else 0) (rectSchedule 2)
+    (rightMix (fun i j => if i + j = 1 then (1 : Cx Int) else 0) (blkTi 0 1 1) 0 1) ∧
+    toM 2 (fun i j => if i + j = 1 then (1 : Cx Int) else 0) *
+      (toM 2 (fun i j => if i + j = 1 then (1 : Cx Int) else 0)).conjTranspose = 1 := by
+  refine ⟨UFollows.col _ (blkTi 0 1 1) 0 1 0 [] _ (by omega) (blkTi_isUnitary 0 1 1 (by norm_num) (by decide))
+    (by decide) (UFollows.nil _), ?_⟩
+  ext i j
+  fin_cases i <;> fin_cases j <;>
+    simp [toM, Matrix.mul_apply, Fin.sum_univ_two, Matrix.conjTranspose_apply] <;> decide
+
+/-- the relocation lists of `_absorb_zeta` for 4 and 5 modes (7 resp. 15 updates; all valid by evaluation too) -/
+example : (absorbUpdates 4).length = 7 ∧ (absorbUpdates 5).length = 15 ∧
+    (absorbUpdates 4)[2]? = some ⟨.sigma, 2, 2, false, 1⟩ := by decide
+
+/-- order logic of the real `takagi` branch on eigenvalues −3, −1, 1, 2, 3: ties |−3| = |3| and |−1| = |1| go to
+the larger index first; phases² are the signs -/
+example : takagiOrder [-3, -1, 1, 2, 3] = [(3, 4), (3, 0), (2, 3), (1, 2), (1, 1)] ∧
+    [-3, -1, 1, 2, 3, 0].map takagiPhaseSq = [-1, -1, 1, 1, 1, -1] := by decide
+
+example : (List.range 6).map (bmPerm 3) = [0, 1, 2, 5, 4, 3] := by decide
 
 end SFV.C17
